@@ -18,7 +18,7 @@ const cryptoRule = "cases = (a) function level: protect ranges of synthetic AVC/
 
 func init() {
 	props["C07"] = &propDef{rule: cryptoRule, gen: func(c *Ctx) { genCrypto(c, "C07") }, exec: execCrypto}
-	props["C06"] = &propDef{rule: cryptoRule, gen: func(c *Ctx) { genCrypto(c, "C06") }, exec: execCrypto}
+	props["C06"] = &propDef{rule: cryptoRule + cryptoRuleKA, gen: func(c *Ctx) { genCrypto(c, "C06") }, exec: execCrypto}
 }
 
 func parseRanges(s string) []mp4.SubSamplePattern {
@@ -450,6 +450,10 @@ func genCrypto(c *Ctx, which string) {
 	genAuxLimit(c, which, key) // samples whose auxiliary information is around the one-byte saiz limit (c0607es.go)
 	emitProtModel(c, which)    // box bookkeeping of encrypt / decrypt against the Lean model (c0607model.go)
 	genMultiInit(c, which)     // multi-track protected inits as packagers write them: IDs, trex order, extra boxes (c0607multi.go)
+	if which == "C06" {
+		genBdoFrags(c, key) // clear fragments whose tfhd has base-data-offset-present (c0607tool.go)
+		genCryptoTools(c)   // the mp4ff-encrypt / mp4ff-decrypt binaries in every flow they offer (c0607tool.go)
+	}
 }
 
 func checkRangesShape(c *Ctx, codec string, s []byte, rs []mp4.SubSamplePattern, req string) {
